@@ -44,7 +44,7 @@ def pred_class(case):
     return False
 
 
-def gen_api_desc(rng, nasty_attrs):
+def gen_api_desc(rng, nasty_attrs, ent_rng=None):
     d = setbuild.rand_desc(rng, unbalanced=0.0, absolute=0.0, style_layout=0.3)
     if rng.random() < 0.2:
         # properly nested spans (what the SAMI reader returns for <i>a <b>b</b> c</i>): a style DFXP cannot express inside
@@ -109,6 +109,12 @@ def gen_api_desc(rng, nasty_attrs):
         else:
             d["langs"][0]["caps"][0]["style"] = {"color": rng.choice(['a"b', "r&b"]), "class": "p"}
             d["styles"] = d["styles"] or {"p": {"color": "white"}}
+    if nasty_attrs and ent_rng is not None:
+        # values that are spelled like entity references in the attributes the XML library writes (style values on <style> and <p>): the `&` of `R&D;` is a literal character like any other
+        nm = ent_rng.choice(["entlike", "rnd"])          # (an xml:id must be a name; the values are free text)
+        d["styles"] = dict(d.get("styles") or {}, **{nm: {"font-family": ent_rng.choice(["Tom&Jerry;, serif", "&copy; Sans", "x&lt;y"]), "color": "white"}})
+        c_ = d["langs"][0]["caps"][0]
+        c_["style"] = {"class": nm, "font-family": ent_rng.choice(["Black&White;", "plain"])}
     return d
 
 
@@ -168,8 +174,9 @@ def explore(chk):
     WR = [("dfxp", pycaption.DFXPWriter), ("single", SinglePositioningDFXPWriter), ("legacy", LegacyDFXPWriter)]
     OPTS = [{}, {"fit_to_screen": False}, {"relativize": False}, {"video_width": 640, "video_height": 360}, {"write_inline_positioning": True}]
     sets = []
+    ent_sub = chk.sub("entity_like_attr_values")
     for i in range(N):
-        d = gen_api_desc(rng, nasty_attrs=(i % 5 == 4))
+        d = gen_api_desc(rng, nasty_attrs=(i % 5 == 4), ent_rng=ent_sub)
         cs_ = setbuild.build(d)
         if i % 7 == 3:
             # a language without captions next to the others (what the DFXP reader returns for a div of blank paragraphs):
